@@ -40,6 +40,15 @@ type F3c struct {
 	Mp   map[string]int32
 }
 
+// FCase: field names that differ only in the case of letters after the first one
+type FCase struct {
+	URL    string
+	Url    string
+	UserId string
+	Userid int32
+	Eps    int64
+}
+
 type Filler struct{ A int32 }
 
 func (c05) Cases(tier string, seed int64, kf *KnownFindings) []Case {
@@ -75,6 +84,7 @@ type c05spec struct {
 type c05extra struct {
 	at   int // insertion index into the wire field list
 	kind string
+	name string // wire name ("" = unknownN); a case-variant of a real field beyond the first letter stays unknown
 }
 
 func permOf(n int, k int) []int {
@@ -115,7 +125,8 @@ func (sp *c05spec) build() (stream []byte, reads int, pickLast bool, expect inte
 	r := rand.New(rand.NewSource(sp.valsSeed))
 	t := sp.goType
 	exp := reflect.New(t)
-	typMap = map[string]reflect.Type{"test.Target": t, "test.Inner": reflect.TypeOf(zoo.Inner{})}
+	target := "test.Target." + t.Name()
+	typMap = map[string]reflect.Type{target: t, "test.Inner": reflect.TypeOf(zoo.Inner{})}
 	// wire fields
 	type wf struct {
 		name string
@@ -220,14 +231,18 @@ func (sp *c05spec) build() (stream []byte, reads int, pickLast bool, expect inte
 		if at > len(fields) {
 			at = len(fields)
 		}
-		fields = append(fields[:at], append([]wf{{fmt.Sprintf("unknown%d", xi), av}}, fields[at:]...)...)
+		xname := ex.name
+		if xname == "" {
+			xname = fmt.Sprintf("unknown%d", xi)
+		}
+		fields = append(fields[:at], append([]wf{{xname, av}}, fields[at:]...)...)
 	}
 	names := make([]string, len(fields))
 	vals := make([]*hspec.Value, len(fields))
 	for i, f := range fields {
 		names[i], vals[i] = f.name, f.val
 	}
-	target := hspec.Object("test.Target", names, vals...)
+	targetObj := hspec.Object(target, names, vals...)
 	ch := hspec.FuncChooser(func(point string, n int) int {
 		if point == "obj" && sp.long {
 			return n - 1
@@ -253,14 +268,14 @@ func (sp *c05spec) build() (stream []byte, reads int, pickLast bool, expect inte
 			enc.Value(mkFiller(i))
 			reads++
 		}
-		enc.Value(target)
+		enc.Value(targetObj)
 		reads++
 	case "list":
 		l := hspec.List("")
 		for i := 0; i < pre; i++ {
 			l.Elems = append(l.Elems, mkFiller(i))
 		}
-		l.Elems = append(l.Elems, target)
+		l.Elems = append(l.Elems, targetObj)
 		enc.Value(l)
 		reads++
 		pickLast = true
@@ -268,7 +283,7 @@ func (sp *c05spec) build() (stream []byte, reads int, pickLast bool, expect inte
 		for i := 0; i < pre; i++ {
 			enc.Define(mkFiller(i))
 		}
-		enc.Value(target)
+		enc.Value(targetObj)
 		reads++
 	}
 	return enc.Out, reads, pickLast, exp.Interface(), typMap, desc
@@ -279,6 +294,12 @@ func (c05) Run(c Case, env *Env) Result {
 	lo, hi := subRange(c)
 	t5 := reflect.TypeOf(F5{})
 	t3 := reflect.TypeOf(F3c{})
+	tCase := reflect.TypeOf(FCase{})
+	// one decoder and one serializer are re-used for every sub-case of the batch: each stream
+	// defines "test.Target" afresh (other order, other fields), so anything a decoder remembers
+	// about a class across Reset shows up as a wrong binding
+	var sharedDec *hessian.Decoder
+	var sharedSer hessian.Serializer
 	hows := []string{"stream", "list", "hoist"}
 	for j := lo; j < hi; j++ {
 		r := rand.New(rand.NewSource(Mix(c.Seed, j)))
@@ -305,8 +326,12 @@ func (c05) Run(c Case, env *Env) Result {
 			sp.long = j/(41*3) == 1 || sp.p >= 16
 			feats = append(feats, "how="+sp.how)
 		default:
-			if r.Intn(3) == 0 {
+			switch r.Intn(4) {
+			case 0:
 				sp.goType = t3
+			case 1:
+				sp.goType = tCase
+				feats = append(feats, "case-variant-fields")
 			}
 			nf := sp.goType.NumField()
 			sp.perm = permOf(nf, r.Intn(120)%fact(nf))
@@ -326,7 +351,20 @@ func (c05) Run(c Case, env *Env) Result {
 			}
 			for k := r.Intn(4); k > 0; k-- {
 				ek := extraKinds[r.Intn(len(extraKinds))]
-				sp.extras = append(sp.extras, c05extra{at: r.Intn(len(sp.perm) + 1), kind: ek})
+				x := c05extra{at: r.Intn(len(sp.perm) + 1), kind: ek}
+				if r.Intn(3) == 0 && (ek == "string" || ek == "int" || ek == "null" || ek == "long") {
+					// a name that equals a real field only when case is ignored beyond the first letter
+					f := sp.goType.Field(r.Intn(sp.goType.NumField())).Name
+					v := strings.ToUpper(f)
+					if v == f || len(f) < 2 {
+						v = strings.ToLower(f[:1]) + strings.ToUpper(f[1:])
+					}
+					if _, clash := sp.goType.FieldByName(v); !clash && lowerFirstC(v) != lowerFirstC(f) {
+						x.name = v
+						feats = append(feats, "extra-name-casefolds-onto-field")
+					}
+				}
+				sp.extras = append(sp.extras, x)
 				feats = append(feats, "extra="+ek)
 			}
 			// keep extras sorted by insertion index so that back-to-front insertion is stable
@@ -414,6 +452,46 @@ func (c05) Run(c Case, env *Env) Result {
 		if d := zoo.Equiv(expect, out, zoo.EquivOpts{}); d != "" {
 			viol("mismatch", d)
 			continue
+		}
+		if reads == 1 {
+			// the same stream through long-lived instances (one-shot calls reset them)
+			if sharedDec == nil {
+				// one complete type map for the whole batch, so that no Register* call is needed between streams
+				all := map[string]reflect.Type{"test.Inner": reflect.TypeOf(zoo.Inner{}), "[int32": reflect.TypeOf([]int32{}),
+					"test.Target.F5": t5, "test.Target.F3c": t3, "test.Target.FCase": tCase}
+				for i := 0; i <= 41; i++ {
+					all[fmt.Sprintf("test.Filler%02d", i)] = reflect.TypeOf(Filler{})
+				}
+				sharedDec = hessian.NewDecoder(nil, all)
+				sharedSer = hessian.NewSerializer(all, nil)
+			}
+			for ri, name := range []string{"re-used Decoder.Decode", "re-used Serializer.ToObject"} {
+				var o2 interface{}
+				var e2 error
+				pi, _ := Guard(func() {
+					if ri == 0 {
+						o2, e2 = sharedDec.Decode(stream)
+					} else {
+						o2, e2 = sharedSer.ToObject(stream)
+					}
+				})
+				if pickLast && o2 != nil {
+					if l, ok := o2.([]interface{}); ok && len(l) > 0 {
+						o2 = l[len(l)-1]
+					}
+				}
+				switch {
+				case pi != nil:
+					viol("reused:panic", name+": "+pi.Msg)
+				case e2 != nil:
+					viol("reused:dec-error", name+": "+e2.Error())
+				default:
+					if d := zoo.Equiv(expect, o2, zoo.EquivOpts{}); d != "" {
+						viol("reused:mismatch", name+": "+d)
+					}
+				}
+			}
+			res.Count("streams_also_decoded_by_reused_instances", 1)
 		}
 		if len(res.Samples) == 0 && j > 0 {
 			res.Sample(map[string]interface{}{"definition": desc, "stream": hexClip(stream), "decoded": fmt.Sprintf("%+v", out)})
